@@ -17,10 +17,6 @@ def mut(name, props, file, old, new, note, expect="detected", runs=None):
 
 
 # ---- C10 ------------------------------------------------------------------------------------
-mut("c10-sha1-no-initstate", ["C10"], "crysp/sha.py",
-    "    def __call__(self,M,bitlen=None):\n        self.initstate()\n        return self.update(M,bitlen=bitlen,padding=True)\n\n    def update(self,M,bitlen=None,padding=False):\n        for W in self.iterblocks(M,bitlen=bitlen,padding=padding):\n            a,b,c,d,e = self.H",
-    "    def __call__(self,M,bitlen=None):\n        if self.padmethod.padflag or self.padmethod.bitcnt==0: self.initstate()\n        return self.update(M,bitlen=bitlen,padding=True)\n\n    def update(self,M,bitlen=None,padding=False):\n        for W in self.iterblocks(M,bitlen=bitlen,padding=padding):\n            a,b,c,d,e = self.H",
-    "SHA1/SHA2 one-shot re-initialises only if the previous stream was finished or nothing was fed: a one-shot after a non-final update() continues the stream")
 mut("c10-md4-no-initstate-after-error", ["C10"], "crysp/md.py",
     "    def __call__(self,M,bitlen=None):\n        self.initstate()\n        return self.update(M,bitlen=bitlen,padding=True)\n\n    def update(self,M,bitlen=None,padding=False):\n        for W in self.iterblocks(M,bitlen=bitlen,padding=padding):\n            a,b,c,d = self.H\n            assert len(W)==16\n            W.extend([W[i] for i in (0,4,8,12",
     "    def __call__(self,M,bitlen=None):\n        r = self.update(M,bitlen=bitlen,padding=True)\n        self.initstate()\n        return r\n\n    def update(self,M,bitlen=None,padding=False):\n        for W in self.iterblocks(M,bitlen=bitlen,padding=padding):\n            a,b,c,d = self.H\n            assert len(W)==16\n            W.extend([W[i] for i in (0,4,8,12",
